@@ -1598,6 +1598,37 @@ func globalWrites(fn *ssa.Function) []string {
 						}
 					}
 				}
+				// library calls that fill the slice they are given: order.PutUintN(dst, v), io.ReadFull(r, dst), hex.Encode(dst, src),
+				// utf8.EncodeRune(dst, r), (*bytes.Buffer/Reader).Read(dst) ...
+				if cal := x.Common().StaticCallee(); cal != nil && cal.Pkg != nil && !load.InModule(cal.Pkg.Pkg) {
+					dst := -1
+					pk, nm := cal.Pkg.Pkg.Path(), cal.Name()
+					switch {
+					case pk == "encoding/binary" && strings.HasPrefix(nm, "PutUint"):
+						dst = 1
+					case pk == "io" && (nm == "ReadFull" || nm == "ReadAtLeast"):
+						dst = 1
+					case pk == "encoding/hex" && (nm == "Encode" || nm == "Decode"):
+						dst = 0
+					case pk == "unicode/utf8" && nm == "EncodeRune":
+						dst = 0
+					case nm == "Read" && cal.Signature.Recv() != nil:
+						dst = 1
+					}
+					if dst >= 0 && dst < len(x.Common().Args) {
+						var roots []ssa.Value
+						rootsOf(x.Common().Args[dst], map[ssa.Value]bool{}, &roots)
+						for _, r := range roots {
+							if gg := rootGlobal(r); gg != nil {
+								g = gg
+							} else if u, ok := r.(*ssa.UnOp); ok {
+								if gg := rootGlobal(u.X); gg != nil {
+									g = gg
+								}
+							}
+						}
+					}
+				}
 				if cal := x.Common().StaticCallee(); cal != nil {
 					if mp := mutatesParams(cal); mp != nil {
 						for k, a := range x.Common().Args {
